@@ -10,6 +10,7 @@ RULE = ("seeded hostile histories of the real dimension-wise strategy (d=1..4, 7
         "zeros/ties/single winners/hot spots); oracle evaluated after every refine() and every evaluation. distinct = "
         "hash of final per-dimension (coordinate, level) sequences; non-trivial = at least one lmax raise or rebalancing "
         "rotation or a tree deeper than the start level")
+RULE += (" A fifth of the histories are continued by a second performSpatiallyAdaptiv(start levels, refinement_container=current refinement) for 1..3 further steps.")
 REQUIRED = ["sorted_with_endpoints", "depends_only_on_level", "nested_in_level", "component_points_are_tensor_product",
             "coefficient_sum_per_point", "nodal_reproduction", "scheme_contract"]
 MIN_NONTRIVIAL = {"quick": 100, "thorough": 1000}
@@ -72,6 +73,7 @@ def run_case(case, res):
     obs = Obs(res, f, cfg, err)
     c = dimwise.build(cfg, f, obs)
     dimwise.run(c, cfg, err)
+    dimwise.maybe_restart(rng, c, cfg, err, obs, res)
     deepest = obs.deepest(c)
     res.hash = dimwise.structure_digest(c)
     res.nontrivial = obs.lmax_raises > 0 or obs.rotations > 0 or deepest > cfg["lmax"]
